@@ -414,6 +414,12 @@ func (g *cssgen) Sheet(n int) string {
 			} else {
 				b.WriteString(g.rule())
 			}
+		case 12:
+			// a nested conditional rule that repeats the enclosing condition, between two rules with the same body
+			q := g.mediaQuery()
+			selA, selB := g.selectorList(), g.selectorList()
+			x, y := g.block(0), g.block(0)
+			b.WriteString("@media " + q + " { " + selA + " { " + x + "} @media " + q + " { " + selB + " { " + y + "} } " + selB + " { " + x + "} }\n")
 		case 11:
 			if g.modern {
 				b.WriteString(g.layerPlay())
